@@ -154,31 +154,27 @@ def setPayloadContents (σ : Pool) (t : Nat) (src : Loc) (n : Nat) : Pool :=
     let σ := σ.setPayload t (.big (.addr a))
     if bs?.isNone then σ.fault else σ                        -- while (start < end) *ptr++ = *start++;
 
-/-- `PDUOption& operator=(const PDUOption& rhs)` -/
-def copyAssign (σ : Pool) (t r : Nat) : Pool :=
-  if t = r then σ else                                       -- if (this == &rhs) return *this;
+/-- the four statements both assignment operators start with -/
+def assignHead (σ : Pool) (t r : Nat) : Pool :=
   let σ := σ.setOption t (σ.obj r).option_                   -- option_ = rhs.option_;
   let σ := σ.setSize t (σ.obj r).size_                       -- size_ = rhs.size_;
   let σ := if (σ.obj t).real_size_ > smallSize               -- if (real_size_ > small_buffer_size)
            then σ.deleteArr (σ.obj t).payload_.asPtr else σ  --     delete[] payload_.big_buffer_ptr;
-  let σ := σ.setReal t (σ.obj r).real_size_                  -- real_size_ = rhs.real_size_;
-  σ.setPayloadContents t (σ.dataPtr r) (σ.obj r).real_size_  -- set_payload_contents(rhs.data_ptr(), rhs.data_ptr() + rhs.data_size());
+  σ.setReal t (σ.obj r).real_size_                           -- real_size_ = rhs.real_size_;
 
 /-- the same operator before `fix: PDUOption copy self-assignment reads its own freed heap buffer` (no identity test) -/
 def copyAssignOld (σ : Pool) (t r : Nat) : Pool :=
-  let σ := σ.setOption t (σ.obj r).option_
-  let σ := σ.setSize t (σ.obj r).size_
-  let σ := if (σ.obj t).real_size_ > smallSize then σ.deleteArr (σ.obj t).payload_.asPtr else σ
-  let σ := σ.setReal t (σ.obj r).real_size_
-  σ.setPayloadContents t (σ.dataPtr r) (σ.obj r).real_size_
+  let σ := σ.assignHead t r
+  σ.setPayloadContents t (σ.dataPtr r) (σ.obj r).real_size_  -- set_payload_contents(rhs.data_ptr(), rhs.data_ptr() + rhs.data_size());
+
+/-- `PDUOption& operator=(const PDUOption& rhs)` -/
+def copyAssign (σ : Pool) (t r : Nat) : Pool :=
+  if t = r then σ else                                       -- if (this == &rhs) return *this;
+  σ.copyAssignOld t r
 
 /-- `PDUOption& operator=(PDUOption&& rhs)` (no identity test in the code) -/
 def moveAssign (σ : Pool) (t r : Nat) : Pool :=
-  let σ := σ.setOption t (σ.obj r).option_                   -- option_ = rhs.option_;
-  let σ := σ.setSize t (σ.obj r).size_                       -- size_ = rhs.size_;
-  let σ := if (σ.obj t).real_size_ > smallSize               -- if (real_size_ > small_buffer_size)
-           then σ.deleteArr (σ.obj t).payload_.asPtr else σ  --     delete[] payload_.big_buffer_ptr;
-  let σ := σ.setReal t (σ.obj r).real_size_                  -- real_size_ = rhs.real_size_;
+  let σ := σ.assignHead t r
   if (σ.obj t).real_size_ > smallSize then
     let σ := σ.setPayload t (.big .null)                     -- payload_.big_buffer_ptr = 0;
     -- std::swap(payload_.big_buffer_ptr, rhs.payload_.big_buffer_ptr);
